@@ -85,10 +85,15 @@ def gen(ttxt: str, rng, classes=None, depth=0):
         return {"$opaque": "obj%d" % rng.randrange(4)}
     if t.startswith("tuple["):
         return {"$tuple": [gen(x, rng, classes, depth + 1) for x in split_args(t[6:-1])]}
-    if classes and t in classes and depth < 3:
+    if "." in t and t.replace(".", "").replace("_", "").isalnum():
+        # member of an enumeration nested in a class (RTCSctpTransport.State): by position, as the prover numbers them
+        return {"$enum": t, "index": rng.randrange(1, 9)}
+    if classes and t in classes:
         fields = classes[t]
         out = {"$class": t}
         for k, ft in fields.items():
+            if depth >= 3 and not (ft.replace("opt[", "").rstrip("]") in ("int", "bool", "str", "bytes", "float")):
+                continue       # nesting limit: deeper objects carry their primitive fields only
             out[k] = gen(ft, rng, classes, depth + 1)
         return out
     return None
